@@ -24,6 +24,41 @@ import (
 
 const c19Marker = "দেখাও \"SCRIPT-RAN\";\n"
 
+// fifoWorksHere: a writer and a reader opened on a fresh named pipe meet and pass a few bytes within two seconds
+// (a harness self-test, so that an odd scratch file system cannot look like a defect of the interpreter).
+func fifoWorksHere(path string) bool {
+	os.Remove(path)
+	if syscall.Mkfifo(path, 0o644) != nil {
+		return false
+	}
+	defer os.Remove(path)
+	got := make(chan string, 1)
+	go func() {
+		f, err := os.OpenFile(path, os.O_WRONLY, 0)
+		if err != nil {
+			return
+		}
+		f.WriteString("ping")
+		f.Close()
+	}()
+	go func() {
+		b, err := os.ReadFile(path)
+		if err == nil {
+			got <- string(b)
+		}
+	}()
+	select {
+	case v := <-got:
+		return v == "ping"
+	case <-time.After(2 * time.Second):
+		// release whichever side is still waiting
+		if rf, err := os.OpenFile(path, os.O_RDWR|syscall.O_NONBLOCK, 0); err == nil {
+			rf.Close()
+		}
+		return false
+	}
+}
+
 var diagLineRe = regexp.MustCompile(`\[line (\d+)\]`)
 
 func (c *Ctx) c19Run(args []string, stdin string) run.CLIResult {
@@ -188,6 +223,10 @@ func TestC19(t *testing.T) {
 				os.Remove(fp)
 				if err := syscall.Mkfifo(fp, 0o644); err != nil {
 					c.Ev.Note("cannot create a named pipe here: " + err.Error())
+					break
+				}
+				if i == 0 && !fifoWorksHere(filepath.Join(dir, "probe.fifo")) {
+					c.Ev.Note("named pipes do not rendezvous on this file system: the named-pipe cases are skipped")
 					break
 				}
 				wrote := make(chan struct{})
